@@ -212,6 +212,9 @@ fn frame_zoo(rng: &mut ChaCha20Rng) -> Vec<(&'static str, Vec<u8>)> {
     for ttl in [0u32, 1, 65535, 65536, u32::MAX] { v.push(("valid:ask", allocate_message(&id(1), ttl, 0, &[]))); v.push(("valid:publish", allocate_message(&id(1), ttl, 0xffff, &[7]))); }
     v.push(("valid:publish", allocate_message(&id(2), 2, 1, &rnd(rng, 300))));
     v.push(("valid:ask", allocate_message(&id(2), 3, 0, &[])));
+    // the same ids published again with payloads of OTHER lengths (shorter, longer, much longer): duplicates are ignored by
+    // the relay, whatever it does with the second frame must not assume equal lengths
+    for (k, len) in [(1u8, 2usize), (1, 40), (2, 1), (2, 301), (3, 5), (1, 4000)] { v.push(("valid:republish-other-length", allocate_message(&id(k), 5, 1, &rnd(rng, len)))); }
     v.push(("truncated:ask-35", allocate_message(&id(2), 3, 0, &[])[..35].to_vec()));
     v.push(("truncated:publish-to-header", allocate_message(&id(3), 3, 0, &[9, 9])[..36].to_vec()));
     v.push(("extended:ask+1", allocate_message(&id(3), 3, 0, &[0])));
